@@ -1,19 +1,24 @@
-import DadiVerif.Lemmas.FileRoundTrip
+import DadiVerif.Lemmas.FileValues
 /-!
 # C14 — spectra survive file and pickle round trips with data, mask, folding and labels
 
 Property theorems only (helper lemmas: `Lemmas/FileFormat.lean`, `Lemmas/FileRoundTrip.lean`).
 
-* The WRITERS `toFile`, `arrayToFile`, the open modes `toFileGzMode …` and the pickle pair `reduceArgs` / `unpickle` are
-  GENERATED from the current `dadi/Spectrum_mod.py` / `dadi/Numerics.py` (tools/gen_FileIO.py) — they are what the driver
-  executes for `c14.tofile`, `c14.arr_to`, `c14.reduce`, `c14.unpickle`.
-* The READERS `fromFile`, `arrayFromFile` and the constructor `construct` are the hand-written executable model
-  (Model/FileFormat.lean) that the driver executes for `c14.fromfile`, `c14.arr_from`; they are tied to the code by
-  correspondence (K) on written and on hand-made files.
-* Numbers are opaque tokens (`Tok`: non-empty, free of Python whitespace).  That `'%.{p}g' % x` yields such a token and
-  that reading it back gives a float which prints to the same token (the same float for p ≥ 17) is a trusted parameter,
-  checked numerically by the harness — it is NOT proved here.  gzip and the UTF-8 codec are transports outside the model;
-  what is proved about them is only that the modes the code opens files with are text modes (`C14_gzip_text_mode`).
+* The WRITERS `toFile`, `arrayToFile`, the READERS `fromFile`, `arrayFromFile`, the open dispatch `toFileOpen` /
+  `fromFileOpen` and the pickle pair `reduceArgs` / `unpickle` are all GENERATED from the current `dadi/Spectrum_mod.py` /
+  `dadi/Numerics.py` (tools/gen_FileIO.py, statement by statement) — they are what the driver executes for `c14.tofile`,
+  `c14.arr_to`, `c14.fromfile`, `c14.arr_from`, `c14.open`, `c14.reduce`, `c14.unpickle`.  Every theorem below is stated on
+  these generated definitions.
+* `fromFileSpec`, `arrayFromFileSpec` (Model/FileFormat.lean) are hand-written normal forms of the readers;
+  `C14_reader_translated` proves the generated readers equal to them (so a change of any translated reader statement breaks
+  that theorem and, through it, every round-trip theorem).  The constructor `construct` is hand-written, tied by K.
+* Numbers are opaque tokens (`Tok`: non-empty, free of Python whitespace) in the file model.  What is assumed of
+  `'%.{p}g' % x` and numpy's text parser is the explicit hypothesis structure `FmtContract` (Lemmas/FileValues.lean):
+  parse (format p x) = round_p x, round_p idempotent, round_p = id for p ≥ 17, formatted entries are tokens.
+  `C14_values_to_precision` / `C14_array_values_to_precision` prove the "same values to the written precision" clause FROM
+  that contract; the contract itself is validated numerically by the harness (`contract_check`), it is not proved.
+  gzip and the UTF-8 codec are transports outside the model; what is proved about them is that writer and reader choose
+  the same transport and text mode for every file name (`C14_open_dispatch`, `C14_gzip_text_mode`).
 
 All statements hold for every number of dimensions ≥ 1 (also > 5), every dimension size including 1 and 0, every
 mask, any number of comment lines.
@@ -49,6 +54,15 @@ theorem C14_array_writer_lines (comments : List Str) (shape : List Nat) (dataRow
   simp [List.flatMap_append, term, dimsPart, tofileSep, NL]
 
 
+/-- **T obligation for the readers.**  The readers GENERATED statement by statement from the current source of
+    `Spectrum.from_file` / `Numerics.array_from_file` (comment loop, header split, old/new format detection, the
+    dimension-scanning loop, label recovery by splitting on quotes, `numpy.fromstring(readline().strip(), count=prod(shape))`,
+    mask line, the constructor call with its keywords and signature defaults; `numpy.fromfile` for the array reader) equal
+    the normal forms `fromFileSpec` / `arrayFromFileSpec` for EVERY text — accepted or rejected — and both `mask_corners`. -/
+theorem C14_reader_translated (mc : Bool) (text : Str) :
+    fromFile mc text = fromFileSpec mc text ∧ arrayFromFile text = arrayFromFileSpec text :=
+  ⟨fromFile_generated mc text, arrayFromFile_generated text⟩
+
 /-- **to_file → from_file.**  For every well-formed spectrum (≥ 1 dimension, entries are tokens, one mask bit per entry,
     labels — if any — one per dimension and free of `"` and line breaks) and all comment lines without line breaks, reading
     the text that `to_file` writes returns the same shape, entries, folded flag and labels, the same mask (plus the two
@@ -68,8 +82,8 @@ theorem C14_roundtrip (fs : Spec) (comments : List Str) (mc : Bool) (h : WellFor
     · exact clean_headerLine _ _ _ _ hlab
     · exact clean_join _ (fun t ht => clean_of_noWs (h.toks t ht).2)
     · exact clean_maskLine _
-  rw [C14_writer_lines]
-  unfold fromFile
+  rw [C14_writer_lines, fromFile_generated]
+  unfold fromFileSpec
   rw [lines_of_text _ hclean]
   simp only [toFileLines, if_true, List.map_append, List.map_cons, List.map_nil, List.append_assoc, List.cons_append,
     List.nil_append]
@@ -92,7 +106,7 @@ theorem C14_roundtrip (fs : Spec) (comments : List Str) (mc : Bool) (h : WellFor
     rw [e] at this
     exact hs (List.length_eq_zero_iff.mp this.1.symm)
   simp only [lineAt, List.drop_zero, List.drop_succ_cons, List.headD_cons, parseHeader_new _ h.shape_ne _ _ hp,
-    if_neg h.shape_ne, splitWs_row _ h.toks, readCount_exact _ _ h.data_len, splitWs_maskLine]
+    if_neg h.shape_ne, splitWs_row _ h.toks, readCount_exact _ _ h.data_len, splitWs_maskLine, maskOfLine]
   have hpl : ∀ l, fs.popIds = some l → l.length = fs.shape.length := fun l hl => (h.labels l hl).1
   by_cases hm : fs.mask = []
   · have hd0 : fs.data.length = 0 := by rw [← h.mask_len, hm]; rfl
@@ -157,8 +171,8 @@ theorem C14_old_format (fs : Spec) (comments : List Str) (mc : Bool) (hs : fs.sh
     · have : headerLine fs.shape fs.folded fs.popIds false = dimsPart fs.shape := by simp [headerLine]
       rw [this]; exact clean_dimsPart _
     · exact clean_join _ (fun t h => clean_of_noWs (ht t h).2)
-  rw [C14_writer_lines]
-  unfold fromFile
+  rw [C14_writer_lines, fromFile_generated]
+  unfold fromFileSpec
   rw [lines_of_text _ hclean]
   simp only [toFileLines, Bool.false_eq_true, if_false, List.append_nil, List.map_append, List.map_cons, List.map_nil,
     List.append_assoc, List.cons_append, List.nil_append]
@@ -174,7 +188,7 @@ theorem C14_old_format (fs : Spec) (comments : List Str) (mc : Bool) (hs : fs.sh
   rw [htw, hdw, comments_back]
   have hsw : splitWs ([] : Str) = [] := rfl
   simp only [lineAt, List.drop_zero, List.drop_succ_cons, List.drop_nil, List.headD_cons, List.headD_nil,
-    parseHeader_old, if_neg hs, splitWs_row _ ht, readCount_exact _ _ hd, hsw, ↓reduceIte]
+    parseHeader_old, if_neg hs, splitWs_row _ ht, readCount_exact _ _ hd, hsw, maskOfLine, ↓reduceIte]
   have hnone : ∀ l, (none : Option (List Str)) = some l → l.length = fs.shape.length := by intro l hl; cases hl
   have := construct_nomask fs.shape fs.data mc false true none hd hnone
   simp only [labelsVal] at this ⊢
@@ -193,7 +207,7 @@ example :
     comments come back, for every shape with ≥ 1 dimension. -/
 theorem C14_array_rw (shape : List Nat) (dataRow : List Str) (comments : List Str) (hs : shape ≠ [])
     (hd : dataRow.length = prodL shape) (ht : ∀ t ∈ dataRow, Tok t) (hc : ∀ c ∈ comments, Clean c) :
-    arrayFromFile (arrayToFile comments shape dataRow) = some (shape, dataRow, comments.map strip) := by
+    arrayFromFile (arrayToFile comments shape dataRow) = some ((shape, dataRow), comments.map strip) := by
   have hclean : ∀ l ∈ arrayToFileLines comments shape dataRow, Clean l := by
     intro l hl
     simp only [arrayToFileLines, List.mem_append, List.mem_map, List.mem_cons, List.mem_nil_iff, or_false] at hl
@@ -201,8 +215,8 @@ theorem C14_array_rw (shape : List Nat) (dataRow : List Str) (comments : List St
     · exact clean_commentLine (hc c hcm)
     · exact clean_dimsPart _
     · exact clean_join _ (fun t h => clean_of_noWs (ht t h).2)
-  rw [C14_array_writer_lines]
-  unfold arrayFromFile
+  rw [C14_array_writer_lines, arrayFromFile_generated]
+  unfold arrayFromFileSpec
   rw [lines_of_text _ hclean]
   simp only [arrayToFileLines, List.map_append, List.map_cons, List.map_nil]
   have hhead : ∀ l, [term (dimsPart shape), term (joinWith SP dataRow)].head? = some l → startsHash l = false := by
@@ -222,7 +236,7 @@ theorem C14_array_rw (shape : List Nat) (dataRow : List Str) (comments : List St
 theorem C14_array_masked (fs : Spec) (comments : List Str) (h : WellFormed fs) (hc : ∀ c ∈ comments, Clean c) :
     arrayFillsMasked = true ∧
     arrayFromFile (arrayToFile comments fs.shape (filledRow fs.data fs.mask))
-      = some (fs.shape, filledRow fs.data fs.mask, comments.map strip) := by
+      = some ((fs.shape, filledRow fs.data fs.mask), comments.map strip) := by
   refine ⟨by decide, C14_array_rw _ _ _ h.shape_ne ?_ ?_ hc⟩
   · simp [filledRow, List.length_zipWith, h.mask_len, h.data_len]
   · intro t ht
@@ -234,7 +248,154 @@ theorem C14_array_masked (fs : Spec) (comments : List Str) (h : WellFormed fs) (
     · exact h.toks _ (List.getElem_mem _)
 
 example : arrayFromFile (arrayToFile [] [2, 1] (filledRow ["1".toList, "2.5".toList] [false, true]))
-    = some ([2, 1], ["1".toList, "nan".toList], []) := by decide
+    = some (([2, 1], ["1".toList, "nan".toList]), []) := by decide
+
+/-- **the pre-1.3 Spectrum format IS the generic array format**: `to_file(foldmaskinfo=False)` and `array_to_file` write the
+    same text (comments, dimensions, one data line), whatever the folding status, labels and mask of the spectrum. -/
+theorem C14_old_format_is_array_format (comments : List Str) (shape : List Nat) (folded : Bool) (popIds : Option (List Str))
+    (dataRow : List Str) (maskBits : List Bool) :
+    toFile comments shape folded popIds false dataRow maskBits = arrayToFile comments shape dataRow := by
+  rw [C14_writer_lines, C14_array_writer_lines]
+  simp [toFileLines, arrayToFileLines, headerLine]
+
+/-- **cross-reading, array file → `Spectrum.from_file`**: a file written by `array_to_file` is read by `from_file` as the
+    spectrum with that shape and those entries, unfolded, unlabelled, nothing masked (corners only with `mask_corners=True`);
+    every shape with ≥ 1 axis, singleton axes included. -/
+theorem C14_cross_array_to_spectrum (shape : List Nat) (dataRow : List Str) (comments : List Str) (mc : Bool)
+    (hs : shape ≠ []) (hd : dataRow.length = prodL shape) (ht : ∀ t ∈ dataRow, Tok t) (hc : ∀ c ∈ comments, Clean c) :
+    fromFile mc (arrayToFile comments shape dataRow)
+      = some ({ shape := shape, data := dataRow,
+                mask := if mc then maskCorners (List.replicate dataRow.length false)
+                        else List.replicate dataRow.length false,
+                folded := false, popIds := none, extrapX := none },
+              comments.map strip) := by
+  rw [← C14_old_format_is_array_format comments shape false none dataRow []]
+  exact C14_old_format { shape := shape, data := dataRow, mask := [], folded := false, popIds := none, extrapX := none }
+    comments mc hs hd ht hc
+
+/-- **cross-reading, pre-1.3 Spectrum file → `array_from_file`**: shape, entries and comments come back -/
+theorem C14_cross_old_to_array (fs : Spec) (comments : List Str) (hs : fs.shape ≠ [])
+    (hd : fs.data.length = prodL fs.shape) (ht : ∀ t ∈ fs.data, Tok t) (hc : ∀ c ∈ comments, Clean c) :
+    arrayFromFile (toFile comments fs.shape fs.folded fs.popIds false fs.data fs.mask)
+      = some ((fs.shape, fs.data), comments.map strip) := by
+  rw [C14_old_format_is_array_format]
+  exact C14_array_rw fs.shape fs.data comments hs hd ht hc
+
+/-- singleton axes, both directions, on closed instances -/
+example : fromFile false (arrayToFile ["c".toList] [1, 2, 1] ["5".toList, "nan".toList])
+    = some ({ shape := [1, 2, 1], data := ["5".toList, "nan".toList], mask := [false, false], folded := false,
+              popIds := none, extrapX := none }, ["c".toList]) := by decide
+example : arrayFromFile (toFile [] [1, 2] true (some ["a".toList, "b c".toList]) false ["5".toList, "-inf".toList] [true, false])
+    = some (([1, 2], ["5".toList, "-inf".toList]), []) := by decide
+
+/-- **consistency the other way round**: the generic array reader REFUSES a current-format Spectrum file (the flag word is not
+    an integer) instead of misreading it. -/
+theorem C14_array_reader_rejects_new_format (fs : Spec) (comments : List Str) (h : WellFormed fs)
+    (hc : ∀ c ∈ comments, Clean c) :
+    arrayFromFile (toFile comments fs.shape fs.folded fs.popIds true fs.data fs.mask) = none := by
+  have hlab : ∀ l, fs.popIds = some l → ∀ x ∈ l, Clean x := fun l hl x hx => ((h.labels l hl).2 x hx).2
+  have hclean : ∀ l ∈ toFileLines comments fs.shape fs.folded fs.popIds true fs.data fs.mask, Clean l := by
+    intro l hl
+    simp only [toFileLines, if_true, List.mem_append, List.mem_map, List.mem_cons, List.mem_nil_iff, or_false] at hl
+    rcases hl with (⟨c, hcm, rfl⟩ | rfl | rfl) | rfl
+    · exact clean_commentLine (hc c hcm)
+    · exact clean_headerLine _ _ _ _ hlab
+    · exact clean_join _ (fun t ht => clean_of_noWs (h.toks t ht).2)
+    · exact clean_maskLine _
+  rw [C14_writer_lines, arrayFromFile_generated]
+  unfold arrayFromFileSpec
+  rw [lines_of_text _ hclean]
+  simp only [toFileLines, if_true, List.map_append, List.map_cons, List.map_nil, List.append_assoc, List.cons_append,
+    List.nil_append]
+  have hhead : ∀ l, [term (headerLine fs.shape fs.folded fs.popIds true), term (joinWith SP fs.data),
+      term (joinWith SP (fs.mask.map fmtD))].head? = some l → startsHash l = false := by
+    intro l hl
+    simp only [List.head?_cons, Option.some.injEq] at hl
+    subst hl
+    unfold term headerLine
+    rw [List.append_assoc]
+    exact startsHash_dims _ h.shape_ne _
+  obtain ⟨htw, hdw⟩ := takeWhile_comments comments _ hhead
+  rw [htw, hdw]
+  simp only [lineAt, List.drop_zero, List.headD_cons, term, splitWs_header, mapM_parseInt_flag]
+
+/-- **which file is opened how** (`if fname.endswith('.gz'): gzip.open(fname, mode) else: open(fname, mode)`, generated for
+    writer and reader): for EVERY file name the reader picks the same transport as the writer (gzip exactly for the names
+    ending in `.gz`), both in text mode, the writer writing and the reader reading. -/
+theorem C14_open_dispatch (fname : Str) :
+    (toFileOpen fname).1 = (fromFileOpen fname).1
+      ∧ ((toFileOpen fname).1 = "gzip.open" ↔ endsWith ['.', 'g', 'z'] fname = true)
+      ∧ textMode (toFileOpen fname) = true ∧ textMode (fromFileOpen fname) = true
+      ∧ (toFileOpen fname).2.head? = some 'w' ∧ (fromFileOpen fname).2.head? = some 'r' := by
+  unfold toFileOpen fromFileOpen
+  by_cases h : endsWith ['.', 'g', 'z'] fname = true
+  · rw [if_pos h, if_pos h]
+    exact ⟨rfl, ⟨fun _ => h, fun _ => rfl⟩, by decide, by decide, by decide, by decide⟩
+  · rw [if_neg h, if_neg h]
+    exact ⟨rfl, ⟨fun e => absurd e (by decide), fun e => absurd e h⟩, by decide, by decide, by decide, by decide⟩
+
+/-- both cases of the dispatch occur -/
+example : (toFileOpen "a.fs.gz".toList).1 = "gzip.open" ∧ (toFileOpen "a.gz.fs".toList).1 = "open" := by decide
+
+/-- **same values to the written precision** (to_file → from_file), proved FROM the explicit contract on number formatting
+    (`FmtContract`: parse (format p x) = round_p x, round_p idempotent, round_p = id for p ≥ 17, formatted entries are
+    whitespace-free tokens).  For every spectrum of floats `vals` (≥ 1 axis, any mask, folded or not, labels), every
+    precision p: the file written with `'%.{p}g'` reads back to a spectrum `g` with the same shape, mask (+ corners),
+    folding and labels whose entries PARSE to `round_p` of the values written; writing these again and reading again
+    changes nothing; and they are exactly the values written when p ≥ 17. -/
+theorem C14_values_to_precision {F : Type} {fmt : Nat → F → Str} {parse : Str → Option F} {rnd : Nat → F → F}
+    (fc : FmtContract fmt parse rnd) (p : Nat) (vals : List F) (shape : List Nat) (mask : List Bool) (folded : Bool)
+    (popIds : Option (List Str)) (comments : List Str) (mc : Bool)
+    (hs : shape ≠ []) (hlen : vals.length = prodL shape) (hm : mask.length = vals.length)
+    (hl : ∀ l, popIds = some l → l.length = shape.length ∧ ∀ x ∈ l, QUOTE ∉ x ∧ Clean x)
+    (hc : ∀ c ∈ comments, Clean c) :
+    ∃ g : Spec, fromFile mc (toFile comments shape folded popIds true (vals.map (fmt p)) mask) = some (g, comments.map strip)
+      ∧ g.shape = shape ∧ g.folded = folded ∧ g.popIds = popIds
+      ∧ g.mask = (if mc then maskCorners mask else mask)
+      ∧ g.data.mapM parse = some (vals.map (rnd p))
+      ∧ ((vals.map (rnd p)).map (fmt p)).mapM parse = some (vals.map (rnd p))
+      ∧ (17 ≤ p → g.data.mapM parse = some vals) := by
+  have hw : WellFormed { shape := shape, data := vals.map (fmt p), mask := mask, folded := folded, popIds := popIds,
+                         extrapX := none } :=
+    { shape_ne := hs, data_len := by simpa using hlen, mask_len := by simpa using hm, toks := fc.toks p vals, labels := hl }
+  have hrt := C14_roundtrip { shape := shape, data := vals.map (fmt p), mask := mask, folded := folded, popIds := popIds,
+                              extrapX := none } comments mc hw hc
+  dsimp only at hrt
+  refine ⟨_, hrt, rfl, rfl, rfl, rfl, fc.parse_row p vals, fc.stable_row p vals, ?_⟩
+  intro hp
+  have := fc.parse_row p vals
+  rw [fc.exact_row p hp vals] at this
+  exact this
+
+/-- the contract is satisfiable (integers, no rounding) — and the theorem applied to it -/
+example : FmtContract (F := Nat) (fun _ n => fmtI n) parseInt (fun _ n => n) := fmtContract_nat
+example : ∃ g : Spec, fromFile true (toFile [] [1, 3] true none true ([7, 0, 12].map fmtI) [false, true, false]) = some (g, [])
+    ∧ g.data.mapM parseInt = some [7, 0, 12] := by
+  obtain ⟨g, h1, _, _, _, _, h2, _, _⟩ := C14_values_to_precision fmtContract_nat 16 [7, 0, 12] [1, 3] [false, true, false]
+    true none [] true (by decide) (by decide) (by decide) (by intro l hl; cases hl) (by intro c hc; cases hc)
+  exact ⟨g, h1, h2⟩
+
+/-- **same values to the written precision**, generic array writer / reader and (by `C14_old_format_is_array_format`) the
+    pre-1.3 Spectrum format read by either reader: shape and comments come back, the entries parse to `round_p` of the values
+    written, are stable under a second write/read, and are the values written when p ≥ 17. -/
+theorem C14_array_values_to_precision {F : Type} {fmt : Nat → F → Str} {parse : Str → Option F} {rnd : Nat → F → F}
+    (fc : FmtContract fmt parse rnd) (p : Nat) (vals : List F) (shape : List Nat) (comments : List Str)
+    (hs : shape ≠ []) (hlen : vals.length = prodL shape) (hc : ∀ c ∈ comments, Clean c) :
+    ∃ toks : List Str, arrayFromFile (arrayToFile comments shape (vals.map (fmt p))) = some ((shape, toks), comments.map strip)
+      ∧ (∀ mc, ∃ g : Spec, fromFile mc (arrayToFile comments shape (vals.map (fmt p))) = some (g, comments.map strip)
+            ∧ g.shape = shape ∧ g.data = toks)
+      ∧ toks.mapM parse = some (vals.map (rnd p))
+      ∧ ((vals.map (rnd p)).map (fmt p)).mapM parse = some (vals.map (rnd p))
+      ∧ (17 ≤ p → toks.mapM parse = some vals) := by
+  have hd : (vals.map (fmt p)).length = prodL shape := by simpa using hlen
+  refine ⟨vals.map (fmt p), C14_array_rw shape _ comments hs hd (fc.toks p vals) hc, ?_, fc.parse_row p vals,
+    fc.stable_row p vals, ?_⟩
+  · intro mc
+    exact ⟨_, C14_cross_array_to_spectrum shape _ comments mc hs hd (fc.toks p vals) hc, rfl, rfl⟩
+  · intro hp
+    have := fc.parse_row p vals
+    rw [fc.exact_row p hp vals] at this
+    exact this
 
 /-- **pickle.**  The tuple `Spectrum_pickler` returns, fed to `Spectrum_unpickler` (both generated from the source, the
     constructor call bound against the signature of `Spectrum.__new__`), rebuilds the same object: data, shape, mask,
